@@ -54,8 +54,18 @@ class Poly:
     def __sub__(self, o):
         return self + (-as_poly(o))
 
+    def sub_scaled(self, o, c):
+        """self - c * o for an integer c (one pass)."""
+        t = dict(self.t)
+        for k, v in o.t.items():
+            t[k] = t.get(k, 0) - c * v
+        return Poly(t)
+
     def __mul__(self, o):
         o = as_poly(o)
+        if len(o.t) == 1 and () in o.t:
+            c = o.t[()]
+            return Poly({k: v * c for k, v in self.t.items()})
         t = {}
         for k1, v1 in self.t.items():
             for k2, v2 in o.t.items():
@@ -302,6 +312,7 @@ def _nonneg_syntactic(p):
 class _Budget:
     def __init__(self, n):
         self.n = n
+        self.fail = {}   # key of a polynomial -> greatest depth at which the search for it failed (within this one top-level attempt)
 
 
 DEADLINE = [None]   # CPU time (time.process_time) after which every proof attempt gives up at once (set by the abstract interpreter per analysis)
@@ -325,6 +336,10 @@ def prove_ge0(p, facts, depth=3, _seen=None, _budget=None):
     _seen = _seen or set()
     k = p.key()
     if k in _seen:
+        return False
+    # the same polynomial is reached along many orders of subtracting the same facts: a search that failed with at least this much depth
+    # left fails again (a shortest derivation never passes through one of its own ancestors, so the cycle cut above loses nothing)
+    if _budget.fail.get(k, 0) >= depth:
         return False
     _seen = _seen | {k}
     patoms = p.atoms()
@@ -353,7 +368,7 @@ def prove_ge0(p, facts, depth=3, _seen=None, _budget=None):
     # p - c*f >= 0 with f >= 0  =>  p >= 0 ; c may be a constant or a single atom
     for f in useful:
         for c in (1, 2):
-            q = p - f * Poly.const(c)
+            q = p.sub_scaled(f, c)
             if len(q.t) <= len(p.t) + 1 and prove_ge0(q, facts, depth - 1, _seen, _budget):
                 return True
         # multiply by an atom occurring in p (for products like q*N)
@@ -361,6 +376,8 @@ def prove_ge0(p, facts, depth=3, _seen=None, _budget=None):
             q = p - f * Poly.atom(a)
             if len(q.t) < len(p.t) + 1 and prove_ge0(q, facts, depth - 1, _seen, _budget):
                 return True
+    if _budget.n > 0 and _budget.fail.get(k, 0) < depth:
+        _budget.fail[k] = depth
     return False
 
 
@@ -453,6 +470,25 @@ def _prove1(goal, facts, budget=1500):
                 if isinstance(x, Poly):
                     more |= x.atoms()
     atoms |= more
+    # the strengthened hypothesis set depends on the facts and the atoms only, not on the goal: one computation per (facts, atoms)
+    try:
+        pk = (frozenset((r, f.key()) for r, f in facts), frozenset(atoms))
+    except Exception:
+        pk = None
+    if pk is not None and pk in _PREP_CACHE:
+        facts = list(_PREP_CACHE[pk])
+    else:
+        exp0 = EXPIRED[0]
+        facts = _strengthen(facts, atoms)
+        if pk is not None and EXPIRED[0] == exp0 and len(_PREP_CACHE) < 50000:
+            _PREP_CACHE[pk] = tuple(facts)   # (only a result no deadline cut short)
+    return _prove2(rel, p, facts, budget, pk)
+
+
+_PREP_CACHE = {}
+
+
+def _strengthen(facts, atoms):
     base_facts = facts
     facts = facts + axioms_for(atoms) + and1_identities(atoms)
     # q != 0 together with q >= 0 (resp. q <= 0) is q >= 1 (resp. q <= -1) over the integers
@@ -487,15 +523,37 @@ def _prove1(goal, facts, budget=1500):
             for z in cands:
                 if all(prove_ge0(x - z, base_facts, 2, None, _Budget(80)) for x in a[1:]):
                     facts.append((">=", Poly.atom(a) - z))
+    return facts
+
+
+_NNE_CACHE = {}
+
+
+def _nonneg_ne(facts, pk, budget):
+    """The disequality facts q != 0 (both signs) whose q is provably >= 0 from `facts` - independent of the goal: once per hypothesis set."""
+    ck = (pk, budget) if pk is not None else None
+    if ck is not None and ck in _NNE_CACHE:
+        return _NNE_CACHE[ck]
+    exp0 = EXPIRED[0]
+    out = []
+    for r2, f in facts:
+        if r2 == "!=":
+            for q in (f, -f):
+                if prove_ge0(q, facts, _budget=_Budget(budget)):
+                    out.append(q)
+    if ck is not None and EXPIRED[0] == exp0 and len(_NNE_CACHE) < 50000:
+        _NNE_CACHE[ck] = out
+    return out
+
+
+def _prove2(rel, p, facts, budget, pk=None):
     if rel == ">=":
         if prove_ge0(p, facts, _budget=_Budget(budget)):
             return True
         # q >= 0 and q != 0 give q - 1 >= 0: try each disequality fact q != 0 with p = (+-q) - 1 + (something >= 0)
-        for r2, f in facts:
-            if r2 == "!=":
-                for q in (f, -f):
-                    if prove_ge0(q, facts, _budget=_Budget(min(budget, 200))) and prove_ge0(p - q + Poly.const(1), facts, _budget=_Budget(min(budget, 300))):
-                        return True
+        for q in _nonneg_ne(facts, pk, min(budget, 200)):
+            if prove_ge0(p - q + Poly.const(1), facts, _budget=_Budget(min(budget, 300))):
+                return True
         # integer rounding: 2p + 1 >= 0 implies p >= 0 over the integers
         return prove_ge0(p * Poly.const(2) + Poly.const(1), facts, 4, None, _Budget(budget))
     if rel == "==":
